@@ -17,7 +17,7 @@ LEVEL_RULE = (
 )
 EXHAUSTIVE_SUBDOMAINS = ["DF 0..31 x {56,112} bits x {upper,lower,mixed} for structured addresses (single-bit, all-ones, zero)"]
 ASSUMPTIONS = ["canonical form = the string icao() returns for an upper-case DF20 frame of the same address (%06X)"]
-REQUIRED = ["df%d" % d for d in range(32)] + ["distinct_messages_pushed_through_by_4_threads", "ap_text_echoed_in_payload", "ap_field_boundary_value", "literal_structured_strings", "table_replies_of_strangers", "table_first_heard_by_tc0", "table_identical_repeats_for_minutes", "table_two_trackers_alive", "table_after_thousands_of_evictions", "table_identical_replies_two_aircraft", "case_upper", "case_lower", "case_mixed", "len56", "len112", "table_one_key",
+REQUIRED = ["df%d" % d for d in range(32)] + ["distinct_messages_pushed_through_by_4_threads", "ap_text_echoed_in_payload", "ap_field_boundary_value", "literal_structured_strings", "table_replies_of_strangers", "table_first_heard_by_tc0", "table_identical_repeats_for_minutes", "table_one_alive_through_replies_one_silent", "table_two_trackers_alive", "table_after_thousands_of_evictions", "table_identical_replies_two_aircraft", "case_upper", "case_lower", "case_mixed", "len56", "len112", "table_one_key",
                                               "allcall_rejects", "df_none"]
 
 AP = (0, 4, 5, 16, 20, 21)
@@ -140,6 +140,25 @@ def m_table(ctx, case):
     else:
         ctx.hit("table_one_key")
     ctx.nontrivial(("t", a, b))
+    if case.get("twin"):
+        # X is heard first, then Y; from then on only X's Comm-B replies arrive (every 20 s for two minutes): Y times out on its
+        # own clock - X, still alive at the head of the table, must not shield it - and a late reply of Y finds no key
+        addr_y = addr ^ (1 << rng.randrange(24))
+        ax = "%028X" % bits.es_frame(17, 5, addr, me)
+        ay = "%028X" % bits.es_frame(17, 5, addr_y, me)
+        d = Decode()
+        ok_ = call(d.process_raw, [100.0], [ax], [], [], 100.5)[0] == "ok" and call(d.process_raw, [101.0], [ay], [], [], 101.5)[0] == "ok"
+        for t_ in range(120, 221, 20):
+            bx = "%028X" % bits.commb_frame(case["df"], rng.fill(27), rng.fill(56), addr)
+            ok_ = ok_ and call(d.process_raw, [], [], [float(t_)], [bx], t_ + 0.5)[0] == "ok"
+        by = "%028X" % bits.commb_frame(case["df"], rng.fill(27), rng.fill(56), addr_y)
+        ok_ = ok_ and call(d.process_raw, [], [], [222.0], [by], 222.5)[0] == "ok"
+        ctx.ev(9)
+        kx, ky = "%06X" % addr, "%06X" % addr_y
+        if not ok_ or set(d.acs) != {kx} or d.acs[kx].get("t") != 220.0:
+            ctx.violation("silent-aircraft-shielded-by-one-kept-alive-through-replies", frames=[ax, ay], keys=sorted(d.acs), expected=[kx],
+                          t_x=d.acs.get(kx, {}).get("t"), t_y=d.acs.get(ky, {}).get("t"))
+        ctx.hit("table_one_alive_through_replies_one_silent")
     if case.get("twin"):
         # an identification squitter is the SAME string every 5 s for the whole flight: a transponder heard only through
         # byte-identical repeats (3 minutes of them, also seen twice per batch through two receivers) stays in the table
